@@ -10,15 +10,13 @@ of the working tree; per module
      every syntax, round-trip battery; mismatches: identifier without a row,
      identifier of row i with the value of row j (BER, UPER, XER), bit flips and
      truncations; everything under ASan/UBSan/LSan, the driver restarted after a crash."""
-import sys, os, re
+import sys, os, re, json
 sys.path.insert(0, os.path.join(os.path.dirname(os.path.abspath(__file__)), "..", "lib"))
 from vlib import *
 from modbuild import *
 from c18_util import *
 
 EXTRA = os.path.join(HARNESS, "moddrv_c18.inc")
-NULLSPEC = re.compile(r"OPEN_TYPE(_oer)?\.c:\d+:\d+: runtime error: member access within null pointer of type 'const (struct )?asn_CHOICE_specifics_t'"
-                      r"|SEGV on unknown address 0x0+ .*\n(.*\n){0,4}?.*OPEN_TYPE_\w+_get")
 
 PROBES = {
     # build-level defects of the class/object-set support, outside the generator's shape
@@ -37,6 +35,41 @@ END
 END
 """,
 }
+
+
+# run-time probe: an OPTIONAL open-type member (ATF_POINTER), a shape the generator does not emit
+PR1 = """PR1 DEFINITIONS ::= BEGIN
+  MY-CLASS ::= CLASS { &id INTEGER UNIQUE, &Type } WITH SYNTAX { ID &id TYPE &Type }
+  Int ::= INTEGER
+  Boo ::= BOOLEAN
+  MySet MY-CLASS ::= { { ID 1 TYPE Int } | { ID 2 TYPE Boo } }
+  Frame ::= SEQUENCE { id MY-CLASS.&id({MySet}), val2 [1] MY-CLASS.&Type({MySet}{@id}) OPTIONAL, tail [2] INTEGER OPTIONAL }
+END
+"""
+PR1_CASES = [("3003020101", True), ("3008020101a203020109", True),            # open type absent
+             ("3008020101a103020105", False), ("3008020102a1030101ff", False),   # present: row 1 (INTEGER 5), row 2 (TRUE)
+             ("300d020101a103020105a203020109", False)]
+NULLCONT = re.compile(r"SEGV on unknown address 0x0000000000[0-9a-f]{2} .*\n(.*\n){0,12}?.*OPEN_TYPE_ber_get")
+
+
+def probe_optional_open_type(run, p):
+    """finding C18-optional-open-type-null-container: OPEN_TYPE_ber_get computes the inner value's address from the NULL
+    container pointer of an ATF_POINTER member.  Known while the decoder dies exactly that way; a clean DER round trip is
+    the repaired behaviour; anything else is a violation."""
+    lines = ["dec Frame ber " + h for h, _ in PR1_CASES]
+    outs, crashes, leak = run_resilient(p["exe"], lines)
+    for i, ((h, absent), l, o) in enumerate(zip(PR1_CASES, lines, outs)):
+        run.case(l)
+        if o.startswith("OK %d %s ck=0" % (len(h) // 2, h)):
+            run.count("probe_optional_open_type_" + ("absent_ok" if absent else "present_ok"))
+        elif o == "CRASH" and not absent and NULLCONT.search(crashes.get(i, "")):
+            run.known_finding("C18-optional-open-type-null-container", l)
+        else:
+            run.violation("crash:optional-open-type" if o == "CRASH" else "oracle:opentype_roundtrip(optional)",
+                          {"module": PR1, "command_line": l, "c": o, "what": "a valid frame with an OPTIONAL open-type member is not decoded and re-encoded",
+                           "stderr_tail": crashes.get(i, "")[-2500:]})
+    if leak is not None:
+        run.violation("leak:optional-open-type", {"module": PR1, "what": "sanitizer report at exit", "stderr_tail": leak[-2500:]})
 
 
 def mrun(model, lines):
@@ -114,7 +147,6 @@ def check_module(run, rng, model, m, tier):
     mo_c = mrun(model, ["c18sel %s %s" % (Fc, id_val_str(kind, i)) for i, _ in probe])
     mo_s = mrun(model, ["c18sel %s %s" % (Fs, id_val_str(kind, i)) for i, _ in probe])
     co, crashes = crun(run, m, lines, "sel")
-    specnull = {}
     selectable = set()
     for (idv, row), l, o, pc, ps in zip(probe, lines, co, mo_c, mo_s):
         run.case(l)
@@ -128,8 +160,6 @@ def check_module(run, rng, model, m, tier):
             continue
         p = int(f[0][0])
         names = [x[1] for x in f]
-        if p:
-            specnull[p] = [x[2] == "1" for x in f]
         if str(p) != pc or (p and names != comp[p - 1]["types"]):
             run.violation("correspondence:OpenType.select", dict(replay, what="generated selector differs from the model's select on the compiled table"),
                           no_input=(pc == ps))
@@ -173,8 +203,8 @@ def check_module(run, rng, model, m, tier):
     cases = [c for c in cases if c["der"] != "NONE" and c["uper"] != "NONE"]
     seen = set()
     cases = [c for c in cases if not (c["der"] in seen or seen.add(c["der"]))]
-    md0 = mrun(model, ["c18dec 0 %s %s" % (Fc, c["der"]) for c in cases])
-    md1 = mrun(model, ["c18dec 1 %s %s" % (Fs, c["der"]) for c in cases])
+    md0 = mrun(model, ["c18dec %s %s" % (Fc, c["der"]) for c in cases])
+    md1 = mrun(model, ["c18dec %s %s" % (Fs, c["der"]) for c in cases])
     mu0 = mrun(model, ["c18uperdec %s %s" % (Fc, c["uper"]) for c in cases])
     lines = []
     for c in cases:
@@ -206,8 +236,6 @@ def check_module(run, rng, model, m, tier):
             fid = None
             if id(r) not in selectable:
                 fid = finding_for(m, r)
-            elif s == "ber" and not tagged:
-                fid = "C18-ber-untagged-open-type"
             if fid:
                 run.known_finding(fid, l)
             else:
@@ -245,9 +273,6 @@ def check_module(run, rng, model, m, tier):
             mt = re.match(r"DEC:OK:(\d+)/(\d+)$", st)
             if syn == "xer" and mt and int(mt.group(1)) + 1 == int(mt.group(2)):
                 continue                              # C01-xer-trailing-newline (recorded under C01); cxer covers the value
-            if syn == "der" and not tagged and st.startswith("DEC:FAIL"):
-                run.known_finding("C18-ber-untagged-open-type", lines[k + 3])
-                continue
             run.violation("oracle:opentype_roundtrip(%s)" % syn, dict(replay, what="encode-then-decode does not return the frame: " + st,
                                                                      command_line=lines[k + 3], c=co[k + 3]))
         if "=" not in co[k + 3]:
@@ -279,7 +304,7 @@ def check_module(run, rng, model, m, tier):
     for x, e in zip(mm, mrun(model, [x["ml"] for x in mm])):
         x["e"] = e
     mm = [x for x in mm if x["e"] != "NONE"]
-    mdec = mrun(model, [("c18dec 0 %s %s" % (Fc, x["e"])) if x["s"] == "der" else ("c18uperdec %s %s" % (Fc, x["e"])) for x in mm])
+    mdec = mrun(model, [("c18dec %s %s" % (Fc, x["e"])) if x["s"] == "der" else ("c18uperdec %s %s" % (Fc, x["e"])) for x in mm])
     lines = ["dec Frame %s %s" % ("ber" if x["s"] == "der" else "uper", x["e"]) for x in mm]
     co, crashes = crun(run, m, lines, "mismatch")
     reenc, reenc_meta, second = [], [], []
@@ -289,16 +314,8 @@ def check_module(run, rng, model, m, tier):
         run.count("mismatch_%s_%s" % (k, s))
         replay = {"module": m["text"], "mismatch": k, "selected_row": a["types"] if a else None, "value_of_row": x["c"]["row"]["types"],
                   "command_line": l, "c": o, "model": mf}
-        if s == "der" and not tagged:
-            continue                                  # BER cannot reach the open type here (C18-ber-untagged-open-type); UPER does
         if o == "CRASH":
-            err = crashes.get(i, "")
-            sn = any(specnull.get(cidx[id(a)], [])) if a else False
-            if NULLSPEC.search(err) and mf == "FAIL" and sn:
-                run.known_finding("C18-opentype-null-specifics", l)
-                run.count("mismatch_crash_nullspec")
-            else:
-                run.violation("crash:mismatch", dict(replay, what="decoder crashed on an identifier/value mismatch", stderr_tail=err[-2500:]))
+            run.violation("crash:mismatch", dict(replay, what="decoder crashed on an identifier/value mismatch", stderr_tail=crashes.get(i, "")[-2500:]))
             continue
         if mf == "FAIL":
             if o.startswith(("FAIL", "MORE")):
@@ -367,11 +384,7 @@ def check_module(run, rng, model, m, tier):
         run.count("mismatch_xer_" + ("cross" if r else "noid"))
         replay = {"module": m["text"], "mismatch": "xer", "selected_row": r["types"] if r else None, "xer_of": c["row"]["types"], "command_line": l, "c": o}
         if o == "CRASH":
-            err = crashes.get(i, "")
-            if r is not None and NULLSPEC.search(err) and any(specnull.get(cidx[id(r)], [])):
-                run.known_finding("C18-opentype-null-specifics", l)
-            else:
-                run.violation("crash:mismatch-xer", dict(replay, what="XER decoder crashed on an identifier/value mismatch", stderr_tail=err[-2500:]))
+            run.violation("crash:mismatch-xer", dict(replay, what="XER decoder crashed on an identifier/value mismatch", stderr_tail=crashes.get(i, "")[-2500:]))
         elif o.startswith("OK"):
             # type names are distinct within a column: another row's element can never be the selected type's
             run.violation("oracle:opentype_mismatch_fails(xer)", dict(replay, what="XER value of one row accepted under another row's (or no row's) identifier"))
@@ -380,7 +393,7 @@ def check_module(run, rng, model, m, tier):
     nm = 40 if tier == "quick" else 300
     for _ in range(nm):
         c = rng.choice(live)
-        if tagged and rng.chance(1, 2):
+        if rng.chance(1, 2):
             lines.append("dec Frame ber %s" % mutate(rng, c["der"]))
         elif "xer" in c and rng.chance(1, 3):
             lines.append("dec Frame xer %s" % mutate(rng, c["xer"].encode("latin-1").hex()))
@@ -388,22 +401,22 @@ def check_module(run, rng, model, m, tier):
             lines.append("dec Frame uper %s" % mutate(rng, c["uper"]))
     lines = sorted(set(lines))
     co, crashes = crun(run, m, lines, "mutation")
-    anynull = any(any(v) for v in specnull.values())
     for i, (l, o) in enumerate(zip(lines, co)):
         run.case(l)
         run.count("mutation_" + o.split()[0])
         if o == "CRASH":
-            err = crashes.get(i, "")
-            if NULLSPEC.search(err) and anynull:
-                run.known_finding("C18-opentype-null-specifics", l)
-            else:
-                run.violation("crash:mutation", {"module": m["text"], "what": "decoder crashed on a mutated encoding", "command_line": l, "stderr_tail": err[-2500:]})
+            run.violation("crash:mutation", {"module": m["text"], "what": "decoder crashed on a mutated encoding", "command_line": l, "stderr_tail": crashes.get(i, "")[-2500:]})
         elif not re.match(r"(OK|FAIL|MORE) \d+ \S+ ck=-?\d+$", o):
             run.violation("oracle:mutation", {"module": m["text"], "what": "unexpected driver output on a mutated encoding", "command_line": l, "c": o})
 
 
 def main(tier):
     run = Run("C18", tier)
+    # entries of the fragment that bin/mkmanifest has not assembled into known_findings.json yet
+    fp = os.path.join(VERIF, "findings.d", "C18.json")
+    if os.path.exists(fp):
+        have_ids = {f["id"] for f in run.findings}
+        run.findings += [f for f in json.load(open(fp)) if f.get("status") == "open" and f["id"] not in have_ids]
     rng = Rng(run.seed)
     ok, out = coq_build()
     nthm, ndis, axioms, names, plog = obligations("C18") if ok else (0, 0, set(), [], out)
@@ -419,6 +432,7 @@ def main(tier):
     mods += [g.module("MO%d" % i, idkind="oid", untagged=False) for i in range(1 if tier == "quick" else 4)]
     mods += [g.module("ML0", lone=True, nrows=1, untagged=False)] + [g.module("ML%d" % i, lone=True, untagged=False) for i in range(1, 2 if tier == "quick" else 5)]
     probes = [{"name": t.split()[0], "text": t, "defs": [("Frame", None)], "probe": fid} for fid, t in PROBES.items()]
+    probes.append({"name": "PR1", "text": PR1, "defs": [("Frame", None)], "probe": None})
     try:
         build_modules(mods + probes, tag="c18", moddrv_extra=EXTRA)
     except BuildError as e:
@@ -426,7 +440,13 @@ def main(tier):
         return run.finish("proof", (nthm, ndis))
     for p in probes:
         run.case("build " + p["name"])
-        if p.get("exe"):
+        if p["probe"] is None:
+            if p.get("exe"):
+                probe_optional_open_type(run, p)
+            else:
+                run.violation("build:module", {"what": "the probe module with an OPTIONAL open-type member does not build", "module": p["text"],
+                                               "asn1c_out": p.get("asn1c_out", "")[-1500:], "build_log": p.get("build_log", "")[-1500:]})
+        elif p.get("exe"):
             run.count("probe_builds")
         else:
             run.known_finding(p["probe"], p["name"])
